@@ -110,13 +110,13 @@ func maxI(a, b int64) int64 {
 }
 
 type boundsCtx struct {
-	c       *Ctx
-	fn      *ssa.Function
-	sizeHi  int64 // hull of (Base).Size over known bases
-	sizeLo  int64
-	depth   int
-	at      *ssa.BasicBlock
-	inGuard bool
+	c          *Ctx
+	fn         *ssa.Function
+	sizeHi     int64 // hull of (Base).Size over known bases
+	sizeLo     int64
+	depth      int
+	at         *ssa.BasicBlock
+	inGuard    bool
 	paramDepth int
 }
 
